@@ -162,8 +162,13 @@ class SrvFamily(Family):
         return L
 
     # ---------------------------------------------------------------- evaluation
+    @staticmethod
+    def steps(obs):
+        return [p.strip() for p in obs.split(" | ") if p.strip().startswith("r=")]
+
     def nontrivial(self, line, obs):
-        return " c=" in obs and any(not p.strip().startswith("r=") or " c=-" not in p for p in obs.split("|"))
+        """at least one handler call or one refusal"""
+        return any(" c=-" not in p or p.startswith("r=err.") for p in self.steps(obs))
 
     def distribution(self, lines, impl, dist):
         d = dist.setdefault("srv", {"scenarios": 0, "steps": 0, "steps_with_handler_call": 0, "results": {}, "requests": {}})
